@@ -58,6 +58,11 @@ def c02(prog, obs, impl):
             loss, gain = [q] * ns, [q * ns]
         else:
             loss, gain = [q] * ns, [q] * nd
+        # a well listed k times in a region written as a list takes part k times
+        if sidx is not None:
+            loss = [l * sidx.count(j) for l, j in zip(loss, sidx)]
+        if didx is not None:
+            gain = [g * didx.count(j) for g, j in zip(gain, didx)]
         atol = F(1, 10**12) * k * (i + 1) + abs(q) * F(1, 10**8)
         for w0, w1, l in zip(S0, S1, loss):
             m0, m1 = measure(subs, w0, b), measure(subs, w1, b)
